@@ -12,6 +12,7 @@ import (
 	"strings"
 	"sync"
 	"testing"
+	"time"
 
 	"github.com/dgraph-io/badger/v4"
 )
@@ -138,10 +139,23 @@ func UFBytes(name string, n int, args ...[]byte) []byte {
 		ab = append(ab, a...)
 	}
 	key := name + ":" + hex.EncodeToString(ab)
-	h, ok := ufs[key]
+	h, ok := ufMemo[key]
 	if !ok {
-		// an application the symbolic path never made: the model says nothing about it
-		panic(unrealisable{fmt.Sprintf("uf %s applied to arguments the model does not define", name)})
+		h, ok = ufs[key]
+		if !ok {
+			// The arguments differ from the model's (typically because they contain a real hash
+			// where the engine had an uninterpreted one): answer with the model's value for the
+			// same-numbered distinct application of this function, and stay functional afterwards.
+			if seq := ufSeq[name]; ufCount[name] < len(seq) {
+				h, ok = seq[ufCount[name]], true
+			}
+		}
+		if !ok {
+			// an application the symbolic path never made: the model says nothing about it
+			panic(unrealisable{fmt.Sprintf("uf %s applied to arguments the model does not define", name)})
+		}
+		ufCount[name]++
+		ufMemo[key] = h
 	}
 	b, err := hex.DecodeString(h)
 	if err != nil || len(b) != n {
@@ -181,10 +195,16 @@ func RunReplay(t *testing.T, entries map[string]func()) {
 		t.Fatalf("ZZ-REPLAY-ERROR bad json: %v", err)
 	}
 	ufs = map[string]string{}
+	ufMemo, ufSeq, ufCount = map[string]string{}, map[string][]string{}, map[string]int{}
 	for _, v := range c.Values {
 		if v.Kind == "uf" {
+			if _, dup := ufs[v.Label+":"+v.Args]; !dup {
+				ufSeq[v.Label] = append(ufSeq[v.Label], v.Hex)
+			}
 			ufs[v.Label+":"+v.Args] = v.Hex
-		} else if v.Kind == "clock" || v.Kind == "sched" {
+		} else if v.Kind == "clock" {
+			clocks = append(clocks, v)
+		} else if v.Kind == "sched" {
 			// the engine's model of time.Now(): the native run reads the real clock
 		} else {
 			vals = append(vals, v)
@@ -245,3 +265,35 @@ func Go(f func()) {
 }
 
 func Wait() { zzWG.Wait() }
+
+var clocks []val
+
+var (
+	ufMemo  map[string]string
+	ufSeq   map[string][]string
+	ufCount map[string]int
+)
+
+func popClock(label string) uint64 {
+	for len(clocks) > 0 {
+		v := clocks[0]
+		clocks = clocks[1:]
+		if strings.HasPrefix(v.Label, "std") {
+			continue // time.Now() readings of the standard library are not controlled natively
+		}
+		if v.Label != label {
+			panic(unrealisable{"clock reading order differs: want " + label + " got " + v.Label})
+		}
+		n, _ := new(big.Int).SetString(v.Int, 10)
+		return n.Uint64()
+	}
+	panic(unrealisable{"more clock readings than the model defines"})
+}
+
+func ClockNow() time.Time {
+	sec := popClock("sec")
+	frac := popClock("frac")
+	return time.Unix(int64(sec), int64(frac))
+}
+
+func ClockNano() uint64 { return popClock("nano") }
